@@ -93,7 +93,7 @@ def spec : Suite where
       | some n => (cancelName s n, "ok")
       | none => (s, "bad-op")
     | ["clear"] => (cancelAll s, "ok")
-    | ["close"] => if s.stopped then (cancelAll s, "-") else ({ cancelAll s with stopped := true }, "ok")
+    | ["close"] => ({ cancelAll s with stopped := true }, "ok")
     | ["wait", d] => match d.toNat? with
       | some d => ({ s with now := s.now + d }, "ok")
       | none => (s, "bad-op")
